@@ -6,6 +6,8 @@ ID=$1; DIFF=$2; TIER=${3:-quick}
 cd /repo || exit 2
 if [ -n "$(git status --porcelain)" ]; then echo "REPO NOT CLEAN"; exit 2; fi
 git apply "$DIFF" || { echo "APPLY FAILED"; exit 2; }
-trap 'git -C /repo checkout -- . ; git -C /repo clean -fdq' EXIT
+# the evidence file must describe the unchanged tree: keep it aside
+cp /verif/evidence/$ID.json /tmp/evidence.$ID.keep 2>/dev/null
+trap 'git -C /repo checkout -- . ; git -C /repo clean -fdq; [ -f /tmp/evidence.'$ID'.keep ] && mv /tmp/evidence.'$ID'.keep /verif/evidence/'$ID'.json' EXIT
 timeout ${SEED_TIMEOUT:-1500} /verif/bin/symgo check "$ID" --tier "$TIER" 2>&1 | grep -v "^\s\s\s\s" | grep "VIOLATION\|KNOWN\|$ID:\|reason" | cut -c1-300 | head -12
 echo "exit=${PIPESTATUS[0]}"
